@@ -22,6 +22,9 @@ Verdict(r) ==
             "c13:flag-moves-wrong-option:" \o (CHOOSE o \in DOMAIN M : r.kwargs[o] # M[o])
     ELSE IF SeqSet(r.pl_seen) \ {""} # Names(r.pl_occ) THEN "c13:preserve-locals-split-wrong"
     ELSE IF SeqSet(r.pg_seen) \ {""} # Names(r.pg_occ) THEN "c13:preserve-globals-split-wrong"
+    \* every module of a run is minified under the same names
+    ELSE IF "calls" \in DOMAIN r /\ r.calls > 1 /\ SeqSet(r.pl_seen2) \ {""} # Names(r.pl_occ) THEN "c13:preserve-locals-lost-for-a-later-module"
+    ELSE IF "calls" \in DOMAIN r /\ r.calls > 1 /\ SeqSet(r.pg_seen2) \ {""} # Names(r.pg_occ) THEN "c13:preserve-globals-lost-for-a-later-module"
     ELSE "ok"
 
 Export(r) == PrintT(ToJson(<<"MEANING", r.id, Meaning(SeqSet(r.flags)), FlagsRejected(SeqSet(r.flags)),
